@@ -90,14 +90,42 @@ impl BFSContext<'_> {
     }
 
     pub fn local_girth(mut self, max: usize) -> Option<usize> {
+        // Each visited node is labelled with its branch: the neighbour of the
+        // root through which the node was first reached. Two paths from the
+        // root close a cycle through the root only if they belong to different
+        // branches (otherwise they share their first edge, and the cycle found
+        // does not contain the root).
+        let mut row_branches = vec![None; self.h.num_rows()];
+        let mut col_branches = vec![None; self.h.num_cols()];
+        fn branch_mut<'a>(
+            rows: &'a mut [Option<Node>],
+            cols: &'a mut [Option<Node>],
+            node: Node,
+        ) -> &'a mut Option<Node> {
+            match node {
+                Node::Row(n) => &mut rows[n],
+                Node::Col(n) => &mut cols[n],
+            }
+        }
         while let Some(head) = self.to_visit.pop_front() {
+            let head_branch = *branch_mut(&mut row_branches, &mut col_branches, head.node);
             for next_head in head.iter(self.h) {
+                // Nodes adjacent to the root start their own branch
+                let branch = head_branch.unwrap_or(next_head.node);
                 let next_dist = self.results.get_node_mut(next_head.node);
                 if let Some(dist) = *next_dist {
+                    let next_branch =
+                        *branch_mut(&mut row_branches, &mut col_branches, next_head.node);
+                    if next_branch == Some(branch) {
+                        // Cycle that does not contain the root
+                        continue;
+                    }
                     let total = dist + next_head.path_length;
                     return if total <= max { Some(total) } else { None };
                 } else {
                     *next_dist = Some(next_head.path_length);
+                    *branch_mut(&mut row_branches, &mut col_branches, next_head.node) =
+                        Some(branch);
                     if next_head.path_length < max {
                         self.to_visit.push_back(next_head);
                     }
